@@ -105,6 +105,9 @@ func runHist(ci interface{}, s *vkit.Stats) error {
 	var fp []string
 	nontrivial := false
 	gcSince := false
+	type keptKey struct{ b, v, tag int }
+	keptI := map[keptKey]*mocker.CachedInterfaceMocker{}
+	keptM := map[keptKey]mocker.InterfaceMocker{}
 	callOne := func(step int, v int, m *corpus.IMethod, code int64) error {
 		t := vs[v]
 		where := fmt.Sprintf("step %d: %s variable %d method %s", step, ii.Name, v, m.Name)
@@ -211,10 +214,40 @@ func runHist(ci interface{}, s *vkit.Stats) error {
 			}
 			var pv interface{}
 			var sl *slot
+			// the mocker objects returned by earlier lookups may be kept and used again (also after a Reset of the builder)
+			useKept := vkit.Pick(op.I[4], 3) == 0
+			method := func() mocker.InterfaceMocker {
+				mk := keptKey{bi, v, m.Tag}
+				ik := keptKey{bi, v, -1}
+				if km, ok := keptM[mk]; ok && useKept {
+					s.Class("instruction-through-a-kept-method-handle")
+					return km
+				}
+				var im *mocker.CachedInterfaceMocker
+				if ki, ok := keptI[ik]; ok && useKept {
+					s.Class("instruction-through-a-kept-interface-handle")
+					im = ki
+				} else {
+					im = b.Interface(ii.Var(v))
+					if old, ok := keptI[ik]; ok && old != im {
+						// a fresh lookup after a Reset starts a new mocker for the variable: handles from before the Reset are
+						// superseded (using both would be two owners of one variable, which no property describes)
+						for k := range keptM {
+							if k.b == bi && k.v == v {
+								delete(keptM, k)
+							}
+						}
+					}
+					keptI[ik] = im
+				}
+				mm := im.Method(m.Name)
+				keptM[mk] = mm
+				return mm
+			}
 			if op.K == "apply" {
 				rec := &corpus.Rec{}
 				sl = &slot{kind: "repl", rec: rec}
-				pv = guard(func() { b.Interface(ii.Var(v)).Method(m.Name).Apply(m.MkCb(rec)) })
+				pv = guard(func() { method().Apply(m.MkCb(rec)) })
 			} else {
 				res := mresults(m, op.I[3])
 				vals := make([]interface{}, len(res))
@@ -222,7 +255,7 @@ func runHist(ci interface{}, s *vkit.Stats) error {
 					vals[i] = res[i].Interface()
 				}
 				sl = &slot{kind: "ret", ret: res}
-				pv = guard(func() { b.Interface(ii.Var(v)).Method(m.Name).As(m.As).Return(vals...) })
+				pv = guard(func() { method().As(m.As).Return(vals...) })
 			}
 			if pv != nil {
 				return fmt.Errorf("step %d: mocking %s.%s on variable %d (%s) panicked: %v", step, ii.Name, m.Name, v, op.K, pv)
@@ -267,13 +300,22 @@ func runHist(ci interface{}, s *vkit.Stats) error {
 					nontrivial = true
 				}
 			}
-			builders[bi] = mocker.Create()
 			fp = append(fp, "reset")
 		case "dropgc":
 			// the builder is dropped (not reset); the variables keep their mocks
 			if builders[bi] != nil {
 				builders[bi] = nil
 				live[bi] = false
+				for k := range keptI {
+					if k.b == bi {
+						delete(keptI, k)
+					}
+				}
+				for k := range keptM {
+					if k.b == bi {
+						delete(keptM, k)
+					}
+				}
 				for _, tt := range vs {
 					if tt.mocked && tt.builder == bi {
 						tt.orphan = true
